@@ -2,6 +2,7 @@ package world
 
 import (
 	"bytes"
+	"errors"
 	"fmt"
 	"io"
 	"log"
@@ -42,8 +43,15 @@ type Client struct {
 	W kube.Waiter
 }
 
-// GetWaiter returns the scripted waiter.
-func (c *Client) GetWaiter(kube.WaitStrategy) (kube.Waiter, error) { return c.W, nil }
+// GetWaiter returns the scripted waiter for the strategies the production client accepts, and the production
+// client's error for any other value (so an action that forgets to pass a strategy on fails here as it would for real).
+func (c *Client) GetWaiter(s kube.WaitStrategy) (kube.Waiter, error) {
+	switch s {
+	case kube.LegacyStrategy, kube.StatusWatcherStrategy, kube.HookOnlyStrategy:
+		return c.W, nil
+	}
+	return nil, errors.New("unknown wait strategy")
+}
 
 var factoryMu sync.Mutex
 
@@ -98,9 +106,9 @@ func (w *World) RawDriver() driver.Driver {
 
 // Rev is the observable part of one stored revision.
 type Rev struct {
-	Version  int    `json:"rev"`
-	Status   string `json:"status"`
-	Manifest string `json:"-"`
+	Version  int              `json:"rev"`
+	Status   string           `json:"status"`
+	Manifest string           `json:"-"`
 	Rel      *release.Release `json:"-"`
 }
 
@@ -129,34 +137,34 @@ func HistString(h []Rev) string {
 
 // Op is one generated operation.
 type Op struct {
-	Kind          string                 `json:"op"` // install | upgrade | rollback | uninstall
-	Atomic        bool                   `json:"atomic,omitempty"`
-	Replace       bool                   `json:"replace,omitempty"`
-	CleanupOnFail bool                   `json:"cleanupOnFail,omitempty"`
-	DisableHooks  bool                   `json:"noHooks,omitempty"`
-	KeepHistory   bool                   `json:"keepHistory,omitempty"`
-	Force         bool                   `json:"force,omitempty"`
-	TakeOwnership bool                   `json:"takeOwnership,omitempty"`
-	MaxHistory    int                    `json:"maxHistory,omitempty"`
-	Target        int                    `json:"target,omitempty"` // rollback revision (0 = previous)
-	DryRun        bool                   `json:"dryRun,omitempty"`
-	DryRunOption  string                 `json:"dryRunOption,omitempty"`
-	ClientOnly    bool                   `json:"clientOnly,omitempty"`
-	CreateNS      bool                   `json:"createNamespace,omitempty"`
-	WaitForJobs   bool                   `json:"waitForJobs,omitempty"`
-	SkipCRDs      bool                   `json:"skipCRDs,omitempty"`
-	IncludeCRDs   bool                   `json:"includeCRDs,omitempty"`
-	SkipSchema    bool                   `json:"skipSchema,omitempty"`
-	SubNotes      bool                   `json:"subNotes,omitempty"`
-	ResetValues   bool                   `json:"resetValues,omitempty"`
-	ReuseValues   bool                   `json:"reuseValues,omitempty"`
-	ResetThenReuse bool                  `json:"resetThenReuse,omitempty"`
-	Description   string                 `json:"description,omitempty"`
-	Labels        map[string]string      `json:"labels,omitempty"`
-	PostRender    bool                   `json:"postRender,omitempty"`
-	Chart         ChartSpec              `json:"chart"`
-	Values        map[string]interface{} `json:"values,omitempty"`
-	Fault         Fault                  `json:"fault,omitempty"`
+	Kind           string                 `json:"op"` // install | upgrade | rollback | uninstall
+	Atomic         bool                   `json:"atomic,omitempty"`
+	Replace        bool                   `json:"replace,omitempty"`
+	CleanupOnFail  bool                   `json:"cleanupOnFail,omitempty"`
+	DisableHooks   bool                   `json:"noHooks,omitempty"`
+	KeepHistory    bool                   `json:"keepHistory,omitempty"`
+	Force          bool                   `json:"force,omitempty"`
+	TakeOwnership  bool                   `json:"takeOwnership,omitempty"`
+	MaxHistory     int                    `json:"maxHistory,omitempty"`
+	Target         int                    `json:"target,omitempty"` // rollback revision (0 = previous)
+	DryRun         bool                   `json:"dryRun,omitempty"`
+	DryRunOption   string                 `json:"dryRunOption,omitempty"`
+	ClientOnly     bool                   `json:"clientOnly,omitempty"`
+	CreateNS       bool                   `json:"createNamespace,omitempty"`
+	WaitForJobs    bool                   `json:"waitForJobs,omitempty"`
+	SkipCRDs       bool                   `json:"skipCRDs,omitempty"`
+	IncludeCRDs    bool                   `json:"includeCRDs,omitempty"`
+	SkipSchema     bool                   `json:"skipSchema,omitempty"`
+	SubNotes       bool                   `json:"subNotes,omitempty"`
+	ResetValues    bool                   `json:"resetValues,omitempty"`
+	ReuseValues    bool                   `json:"reuseValues,omitempty"`
+	ResetThenReuse bool                   `json:"resetThenReuse,omitempty"`
+	Description    string                 `json:"description,omitempty"`
+	Labels         map[string]string      `json:"labels,omitempty"`
+	PostRender     bool                   `json:"postRender,omitempty"`
+	Chart          ChartSpec              `json:"chart"`
+	Values         map[string]interface{} `json:"values,omitempty"`
+	Fault          Fault                  `json:"fault,omitempty"`
 	// Customize lets a property adjust the action object (e.g. set fields the Op does not model).
 	Customize func(a interface{}) `json:"-"`
 	// Gate is installed on the operation's context (schedulers).
